@@ -182,6 +182,29 @@ def gen_project(seed, nfiles=None, with_header=None, with_inline=None, severitie
             "located": located, "supprs": supprs, "enabled": en, "inline": with_inline}
 
 
+def gen_special(k):
+    """Handcrafted projects for situations a random project hits too rarely. Name "p-<k>" (negative seed).
+    1, 2: two translation units DISAGREE about an inline suppression of a shared header (it matches in the unit that defines
+          SLOT 2, it is not even consulted in the other) and finish at very different times: 1 = the matching unit is the slow
+          one, 2 = the matching unit is the fast one. Whatever arrives first, the merged state must say "matched"."""
+    if k not in (1, 2):
+        raise ValueError("no special project %s" % k)
+    shared = ("#ifndef SHARED_H\n#define SHARED_H\nstatic int put(int v) {\n    int buf[2];\n    buf[0] = 0;\n"
+              "    // cppcheck-suppress arrayIndexOutOfBounds\n    buf[SLOT] = v;\n    return buf[0];\n}\n#endif\n")
+    filler = "".join("int fill%d(int x) { int a[4]; a[0] = x; a[1] = a[0] + %d; a[2] = a[1] * 2; a[3] = a[2] - x; return a[3] + a[x & 3]; }\n" % (i, i)
+                     for i in range(250))
+    big_slot, small_slot = (2, 1) if k == 1 else (1, 2)
+    files = {"shared.h": shared,
+             "big.c": "#define SLOT %d\n#include \"shared.h\"\nint big(void) { return put(1); }\n" % big_slot + filler,
+             "small.c": "#define SLOT %d\n#include \"shared.h\"\nint small(void) { return put(2); }\n" % small_slot}
+    opts = ["--template=" + TEMPLATE, "-q", "--inline-suppr", "--enable=information", "--error-exitcode=3"]
+    return {"name": "p-%d" % k, "files": files, "sources": ["big.c", "small.c"], "opts": opts,
+            "desc": "special %d: header suppression matched by the %s unit only" % (k, "slow" if k == 1 else "fast"),
+            "located": [("shared.h", 7, "arrayIndexOutOfBounds", "error")],
+            "supprs": [{"id": "arrayIndexOutOfBounds", "file": "shared.h", "line": 7, "inline": True, "glob": False}],
+            "enabled": ["information"], "inline": True}
+
+
 def materialize(proj, root):
     import os
     for rel, text in proj["files"].items():
